@@ -2,6 +2,9 @@
      graph ((name...) (iset...) (def...) ((ext int)...)) ...   -> "ok"        sets the current library graph
      denote <iset>                                              -> "ERR" | "n>m n>m ..." (| "_" when empty)
      origin (<iset> ...) (name ...)                             -> one token per name: O:<lib.with.dots>:<m> | U | A | E
+     frames (<iset> ...)                                        -> Env.env_import folded over the import sets from one empty frame (the
+                                                                   exporter binds every listed internal name): per frame, innermost first,
+                                                                   "(k1 k2 ...)" = its rename keys in the order env-exports lists them; ERR on import error
      history ((lib (import ...)) ...) (req ...)                 -> Load.run_history from the initial state (libraries are numbers):
                                                                    one outcome per request D | S<l> | N<l> | F, then " | " and the
                                                                    libraries whose body was evaluated, oldest first
@@ -118,6 +121,16 @@ let handle (line : ostring) : ostring =
   | "origin", [L isets; names] ->
       let is = List.map iset_of isets in
       oconcat " " (List.map (fun nm -> show_origin (program_origin !graph is nm)) (atoms names))
+  | "frames", [L isets] ->
+      let w = world_of !graph in
+      let step to_ i =
+        match denote w (iset_of i) with
+        | None -> failwith "import-error"
+        | Some ids ->
+            let from = [ { f_renames = []; f_bindings = List.mapi (fun j (_, m) -> (m, nat_of_int j)) ids; f_immutable = false } ] in
+            env_import to_ from (Some ids) true in
+      let e = List.fold_left step [empty_frame] isets in
+      oconcat " " (List.map (fun f -> "(" ^ oconcat " " (List.rev_map (fun (k, _) -> sym k) f.f_renames) ^ ")") e)
   | "history", [L defs; L reqs] ->
       let d = List.map (function L [n; L imps] -> (num n, List.map num imps) | _ -> failwith "defs entry") defs in
       let (st, tr) = run_history (nat_of_int 64) d init_state (List.map num reqs) in
